@@ -95,6 +95,17 @@ static std::string runOp(State& st, const Toks& t) {
     st.eig->verifSetSpectrum(d, e);
     return showMat(st.eig->getD());
   }
+  if (o == "trace") {
+    // guarded instrumentation of the last decomposition: branch counters (index 2k = outcome false,
+    // 2k+1 = outcome true of branch k; non-zero ones only), the event log of the bookkeeping steps
+    // of tql2 / hqr2 (records: code, length, payload), and the final d, e, V once more
+    if (!st.eig) return "bad-op";
+    std::string s = "hits";
+    const std::vector<unsigned long>& h = st.eig->verifHits();
+    for (size_t i = 0; i < h.size(); ++i) if (h[i]) s += " " + std::to_string(i) + ":" + std::to_string(h[i]);
+    return s + " ; " + showVec(st.eig->verifLog()) + "; " + showVec(st.eig->getRealEigenValues()) + "; "
+      + showVec(st.eig->getImagEigenValues()) + "; " + showMat(st.eig->getV());
+  }
   if (o == "pow" && t.size() == 2) return glue(st, false, unhx(t[1]));
   if (o == "exp" && t.size() == 1) return glue(st, true, 0.0);
   return "bad-op";
